@@ -555,7 +555,7 @@ func checkCall(c *harness.Ctx, w *World, call *Call, world string) {
 	}
 	for i := range inv.Args {
 		exp, got := call.Expect[i], inv.Args[i]
-		if isBatchKeyed(call.Method) && i == len(inv.Args)-1 && exp.Kind() == reflect.Slice {
+		if isBatchKeyed(call.Method) && i == payloadIndex(inv.Args) && exp.Kind() == reflect.Slice {
 			// batch ids are a set on the wire (sent in ascending encoded order): compare as sets
 			exp, got = sortedSlice(exp), sortedSlice(got)
 		}
@@ -600,7 +600,7 @@ func checkKeyIdentity(c *harness.Ctx, call *Call, where string) {
 	if !isBatchKeyed(call.Method) || len(call.Rets) == 0 || call.Rets[0].IsNil() {
 		return
 	}
-	ka := call.Args[len(call.Args)-1]
+	ka := call.Args[payloadIndex(call.Args)]
 	var orig []reflect.Value
 	if ka.Kind() == reflect.Map {
 		orig = ka.MapKeys()
